@@ -945,6 +945,38 @@ pub mod awkward_rawmod {
         metas![User]
     }
 }
+/// Distinct Rust types that scale-info describes identically: twin entries in one registry.
+pub mod twins {
+    use super::*;
+    #[derive(TypeInfo)]
+    pub struct X {
+        pub v: u8,
+    }
+    #[derive(TypeInfo)]
+    #[allow(non_camel_case_types)]
+    pub struct Legacy_Header {
+        pub n: u32,
+    }
+    #[derive(TypeInfo)]
+    pub struct Header {
+        pub n: u64,
+    }
+    #[derive(TypeInfo)]
+    pub struct Names {
+        pub owned: Option<String>,
+        pub borrowed: Option<&'static str>,
+        pub len: u32,
+        pub a: Vec<Box<X>>,
+        pub b: Vec<X>,
+        pub c: (Box<u8>, u8),
+        pub d: (u8, u8),
+        pub e: Legacy_Header,
+        pub f: Header,
+    }
+    pub fn metas() -> Vec<MetaType> {
+        metas![Names]
+    }
+}
 pub mod awkward_cow {
     use super::*;
     /// A user type whose identifier happens to be `Cow`.
@@ -1122,6 +1154,7 @@ pub fn families() -> Vec<Entry> {
         ("awkward_duration", awkward_duration::metas()),
         ("awkward_phantom", awkward_phantom::metas()),
         ("awkward_cow", awkward_cow::metas()),
+        ("twins", twins::metas()),
         ("awkward_dollar_crate", awkward_dollar_crate::metas()),
         ("awkward_rawmod", awkward_rawmod::metas()),
         ("awkward_compact_unit", awkward_compact_unit::metas()),
